@@ -252,6 +252,56 @@ SchemasFamily ==
   \cup {[main |-> "m1", mods |-> [m \in {"m1"} |-> <<Body(Obj(<<Prop("o", x), Prop("l", Arr(x))>>))>>]] : x \in SchemaL1}
   \cup {[main |-> "m1", mods |-> [m \in {"m1"} |-> <<LetRef("@s", x), Body(Obj(<<Prop("r", Var("@s")), Prop("q", Arr(Var("@s")))>>))>>]] : x \in SchemaL1}
 
+\* ---- Annots: annotated values at schema, property, content and transfer level ---------------------
+AnnShape(sn) ==
+  CASE sn = "a-obj"  -> Ann(OA, <<Desc("d1"), Title("t1")>>)
+    [] sn = "a-num"  -> Ann(Prim("num"), <<AnnE("minimum", "1", "n", "inline"), Desc("a number")>>)
+    [] sn = "a-str"  -> Ann(Prim("str"), <<AnnE("pattern", "^a+$", "s", "inline"), AnnE("example", "aaa", "s", "inline")>>)
+    [] sn = "a-props" -> Obj(<<Ann(Prop("p", Prim("num")), <<AnnE("description", "pd", "s", "line"), AnnE("required", "true", "b", "line")>>),
+                              Prop("q", Ann(Prim("str"), <<Title("qt")>>))>>)
+    [] sn = "a-arr"  -> Ann(Arr(Ann(Prim("int"), <<AnnE("minimum", "0", "n", "inline")>>)), <<Desc("an array")>>)
+    [] sn = "a-sum"  -> Ann(Op("|", <<Ann(Prim("num"), <<Title("n")>>), Prim("str")>>), <<Desc("a sum")>>)
+    [] sn = "a-line" -> Ann(OA, <<AnnE("description", "line d", "s", "line"), AnnE("title", "line t", "s", "line")>>)
+    [] sn = "a-rec"  -> Ann(Rec("x", Obj(<<Prop("k", Arr(Var("x")))>>)), <<Desc("rec d"), Title("rec t")>>)
+    [] sn = "a-plain" -> OA
+AnnShapeNames == {"a-obj", "a-num", "a-str", "a-props", "a-arr", "a-sum", "a-line", "a-rec", "a-plain"}
+
+\* the value supplied through an indirection, optionally annotated again at the use site
+AnnHole(ind, sh, use) ==
+  LET h == CASE ind = "direct" -> sh
+             [] ind \in {"let", "letann", "implet"} -> Var("h")
+             [] ind \in {"idfn", "impfn"} -> App(Var("id"), <<sh>>)
+  IN IF use = "none" \/ ind = "direct" THEN h          \* written in place there is no separate use site
+     ELSE IF use = "title" THEN Ann(h, h.ann \o <<AnnE("title", "use t", "s", "inline")>>)
+     ELSE Ann(h, h.ann \o <<AnnE("description", "use d", "s", "inline")>>)
+AnnHelpers(ind, sh) ==
+  CASE ind = "let" -> <<Let("h", sh)>>
+    [] ind = "letann" -> <<Ann(Let("h", sh), <<AnnE("description", "decl d", "s", "line")>>)>>
+    [] ind = "idfn" -> <<Decl("id", <<"x">>, Var("x"))>>
+    [] OTHER -> <<>>
+AnnPos(pn, h) ==
+  CASE pn = "body" -> <<Body(h)>>
+    [] pn = "proprhs" -> <<Body(Obj(<<Prop("p", h)>>))>>
+    [] pn = "arritem" -> <<Body(Arr(h))>>
+    [] pn = "range" -> <<GetTo(Ann(Cnt(<<Meta("status", LitNum("200"))>>, <<h>>), <<Desc("the content")>>))>>
+    [] pn = "domain" -> <<Res(Rel(Root, <<XferD("put", Cnt(<<>>, <<h>>), C0)>>))>>
+    [] pn = "xfer" -> <<Ann(Let("op", Xfer("get", Cnt(<<>>, <<h>>))),
+                          <<AnnE("summary", "the op", "s", "line"), AnnE("operationId", "theOp", "s", "line"), AnnE("tags", "t1,t2", "l", "line")>>),
+                        Res(Rel(Root, <<Var("op")>>))>>
+AnnPositions == {"body", "proprhs", "arritem", "range", "domain", "xfer"}
+AnnInds == {"direct", "let", "letann", "idfn", "implet", "impfn"}
+AnnUses == {"none", "title", "desc"}
+
+AnnProg(pn, sn, ind, use) ==
+  LET sh == AnnShape(sn)
+      main == (IF ind \in {"implet", "impfn"} THEN <<Use("g")>> ELSE <<>>) \o AnnHelpers(ind, sh) \o AnnPos(pn, AnnHole(ind, sh, use))
+  IN IF ind \in {"implet", "impfn"}
+     THEN [main |-> "m1", mods |-> [m \in {"m1", "g"} |-> IF m = "m1" THEN main ELSE ModG(ind, sh)]]
+     ELSE [main |-> "m1", mods |-> [m \in {"m1"} |-> main]]
+AnnotsFamily == {AnnProg(pn, sn, ind, use) : pn \in AnnPositions, sn \in AnnShapeNames, ind \in AnnInds, use \in AnnUses}
+AnnotsLabelled == {[l |-> <<pn, sn, ind, IF ind = "direct" THEN "none" ELSE use>>, p |-> AnnProg(pn, sn, ind, use)]
+                     : pn \in AnnPositions, sn \in AnnShapeNames, ind \in AnnInds, use \in AnnUses}
+
 AllPositions == {"body", "range", "domain", "headers", "media", "status", "reluri", "res", "xferlist", "proprhs", "objitem",
                  "arritem", "join", "any", "sum", "rangeop", "unary", "urivar", "apparg", "recbody", "refdecl", "concat"}
 AllShapes == {"num", "str", "uriprim", "obj", "obj0", "arr", "prop", "propreq", "unopt", "join", "any", "sum", "sumobj", "cnt", "cnt0",
